@@ -17,8 +17,8 @@ func init() {
 func runC11(c *Ctx) {
 	p := c.P
 	c.Rule("C11-R1", "sort then dedup before any output; comparator key set", 18)
-	c.Rule("C11-R2", "single consumer of the summary in checkRules", 3)
-	c.Rule("C11-R3", "no package-level stores reachable from the workers", 2)
+	c.Rule("C11-R2", "single consumer of the summary in checkRules; arrival-order independent folding", 4)
+	c.Rule("C11-R3", "no package-level stores and no stores into the shared rule/AST reachable from the workers", 3)
 	c.Rule("C11-R4", "guarded state touched by workers (C14-R4 tables)", 10)
 	c.Rule("C11-R5", "no map-order leaks in console/JSON output", 3)
 
@@ -254,6 +254,40 @@ func runC11(c *Ctx) {
 		c.Check(okClose, "C11-R2", "checkRules:results closed after all workers finished", cr.Decl.Pos(), "close after wg.Wait", "the results channel is not closed by a goroutine that first waits for every worker")
 	}
 
+	// duplicate detection on arrival is order independent: hasReport scans the whole list
+	if hr := c.MustFunc("C11-R2", "internal/reporter.Summary.hasReport"); hr != nil {
+		rinfo := hr.Pkg.TypesInfo
+		var loop *ast.RangeStmt
+		nLoops := 0
+		ast.Inspect(hr.Decl.Body, func(n ast.Node) bool {
+			switch x := n.(type) {
+			case *ast.RangeStmt:
+				nLoops++
+				if fieldSel(rinfo, x.X, "internal/reporter.Summary", "reports") {
+					loop = x
+				}
+			case *ast.ForStmt:
+				nLoops++
+			}
+			return true
+		})
+		okScan := loop != nil && nLoops == 1
+		if okScan {
+			inspectNoLit(loop.Body, func(n ast.Node) bool {
+				if b, ok := n.(*ast.BranchStmt); ok && b.Tok != token.FALLTHROUGH {
+					okScan = false
+				}
+				return true
+			})
+			for _, r := range returnsIn(loop.Body.List) {
+				if exprStr(r.Results[0]) != "true" {
+					okScan = false
+				}
+			}
+		}
+		c.Check(okScan, "C11-R2", "hasReport:scans every stored report", hr.Decl.Pos(), "range s.reports, positive exit only", "Summary.hasReport no longer compares the new report with every stored one: whether two equal reports are folded depends on what arrived between them")
+	}
+
 	// ---- R3 ----
 	c11Globals(c)
 
@@ -424,6 +458,208 @@ func c11Globals(c *Ctx) {
 			return true
 		})
 	}
+	// stores into the shared parsed rule / PromQL AST: allowed only on values the function (or, for a
+	// pointer parameter, every caller) allocated itself, and never through a shared element or pointer field
+	nShared := 0
+	isSharedType := func(owner string) bool {
+		return strings.HasPrefix(owner, "github.com/prometheus/prometheus/promql/parser.") || strings.HasPrefix(owner, "internal/parser.") || owner == "internal/discovery.Entry"
+	}
+	freshIn := func(fi *FuncInfo) map[types.Object]string {
+		info := fi.Pkg.TypesInfo
+		fresh := map[types.Object]string{}
+		mark := func(l ast.Expr, rhs ast.Expr) {
+			o := objOf(info, l)
+			if o == nil || rhs == nil {
+				return
+			}
+			switch r := ast.Unparen(rhs).(type) {
+			case *ast.UnaryExpr:
+				if _, isLit := r.X.(*ast.CompositeLit); isLit && r.Op == token.AND {
+					fresh[o] = "literal"
+				}
+			case *ast.CompositeLit:
+				fresh[o] = "literal"
+			case *ast.CallExpr:
+				if exprStr(r.Fun) == "new" || exprStr(r.Fun) == "make" {
+					fresh[o] = "literal"
+				}
+				if fn := Callee(info, r); fn != nil && fn.Pkg() != nil && fn.Pkg().Path() == "github.com/prometheus/prometheus/promql/parser" && strings.HasPrefix(fn.Name(), "Parse") {
+					fresh[o] = "parsed"
+				}
+			}
+		}
+		for pass := 0; pass < 2; pass++ {
+			ast.Inspect(fi.Decl.Body, func(n ast.Node) bool {
+				switch x := n.(type) {
+				case *ast.AssignStmt:
+					for i, l := range x.Lhs {
+						if len(x.Rhs) == len(x.Lhs) {
+							mark(l, x.Rhs[i])
+						} else if len(x.Rhs) == 1 && i == 0 {
+							mark(l, x.Rhs[0])
+						}
+					}
+				case *ast.ValueSpec:
+					if x.Type != nil {
+						if _, isPtr := info.TypeOf(x.Type).(*types.Pointer); !isPtr {
+							for _, id := range x.Names {
+								fresh[info.Defs[id]] = "literal"
+							}
+						}
+					}
+				case *ast.TypeSwitchStmt:
+					// switch n := node.(type): n owns what node owns
+					if as, ok := x.Assign.(*ast.AssignStmt); ok && len(as.Rhs) == 1 {
+						if ta, ok := as.Rhs[0].(*ast.TypeAssertExpr); ok {
+							if kind, isFresh := fresh[objOf(info, ta.X)]; isFresh {
+								for _, cl := range x.Body.List {
+									if o := info.Implicits[cl]; o != nil {
+										fresh[o] = kind
+									}
+								}
+							}
+						}
+					}
+				}
+				return true
+			})
+		}
+		return fresh
+	}
+	freshCache := map[*FuncInfo]map[types.Object]string{}
+	getFresh := func(fi *FuncInfo) map[types.Object]string {
+		if f, ok := freshCache[fi]; ok {
+			return f
+		}
+		f := freshIn(fi)
+		freshCache[fi] = f
+		return f
+	}
+	for fi := range reach {
+		if p.IsTestFile(fi.Decl.Pos()) {
+			continue
+		}
+		info := fi.Pkg.TypesInfo
+		fresh := getFresh(fi)
+		ast.Inspect(fi.Decl.Body, func(n ast.Node) bool {
+			var lhs []ast.Expr
+			switch x := n.(type) {
+			case *ast.AssignStmt:
+				if x.Tok == token.DEFINE {
+					return true
+				}
+				lhs = x.Lhs
+			case *ast.IncDecStmt:
+				lhs = []ast.Expr{x.X}
+			}
+			for _, l := range lhs {
+				// walk the chain down to the root, noting the innermost shared-type field and crossings
+				var root *ast.Ident
+				crossed := 0 // element or pointer-field crossings strictly between root and the stored location
+				sharedField := ""
+				first := true
+				for cur := ast.Unparen(l); cur != nil; {
+					switch x := cur.(type) {
+					case *ast.SelectorExpr:
+						if owner := fieldOwner(info, x); isSharedType(owner) && sharedField == "" {
+							sharedField = owner + "." + x.Sel.Name
+						}
+						if !first || true {
+							// does evaluating x.X dereference a pointer that is not the root variable?
+							if _, isPtr := info.TypeOf(x.X).Underlying().(*types.Pointer); isPtr {
+								if _, isRoot := ast.Unparen(x.X).(*ast.Ident); !isRoot {
+									crossed++
+								}
+							}
+						}
+						cur = ast.Unparen(x.X)
+					case *ast.IndexExpr:
+						if !first {
+							crossed++
+						}
+						cur = ast.Unparen(x.X)
+					case *ast.StarExpr:
+						cur = ast.Unparen(x.X)
+					case *ast.Ident:
+						root = x
+						cur = nil
+					default:
+						cur = nil
+					}
+					first = false
+				}
+				if root == nil || sharedField == "" {
+					continue
+				}
+				ro := info.Uses[root]
+				v, isVar := ro.(*types.Var)
+				if !isVar || v.IsField() {
+					continue
+				}
+				kind, isFresh := fresh[ro]
+				if isFresh && (crossed == 0 || kind == "parsed") {
+					continue
+				}
+				_, rootIsPtr := v.Type().Underlying().(*types.Pointer)
+				if crossed == 0 && !rootIsPtr {
+					continue // a struct value: only this function's copy changes
+				}
+				if crossed == 0 && rootIsPtr {
+					// pointer parameter / receiver: every caller must hand in something it allocated itself
+					sig := fi.Obj.Type().(*types.Signature)
+					argIdx := -2
+					if sig.Recv() == v {
+						argIdx = -1
+					}
+					for i := 0; i < sig.Params().Len(); i++ {
+						if sig.Params().At(i) == v {
+							argIdx = i
+						}
+					}
+					callers := p.CallersOf(fi.Obj)
+					if argIdx >= -1 && len(callers) > 0 && len(p.FuncValueUses(fi.Obj)) == 0 {
+						all := true
+						for _, cs := range callers {
+							var arg ast.Expr
+							if argIdx == -1 {
+								if sel, ok := cs.Call.Fun.(*ast.SelectorExpr); ok {
+									arg = sel.X
+								}
+							} else if argIdx < len(cs.Call.Args) {
+								arg = cs.Call.Args[argIdx]
+							}
+							ok := false
+							if arg != nil {
+								a := ast.Unparen(arg)
+								if u, isU := a.(*ast.UnaryExpr); isU && u.Op == token.AND {
+									a = ast.Unparen(u.X)
+								}
+								if id, isID := a.(*ast.Ident); isID {
+									if _, f := getFresh(cs.Caller)[cs.Caller.Pkg.TypesInfo.Uses[id]]; f {
+										ok = true
+									}
+								}
+							}
+							if !ok {
+								all = false
+							}
+						}
+						if all {
+							continue
+						}
+					}
+				}
+				nShared++
+				why := "through a pointer it did not allocate"
+				if crossed > 0 {
+					why = "through an element or pointer field that can be shared with the original"
+				}
+				c.Bad("C11-R3", "store into shared "+sharedField+" in "+fi.Name, n.Pos(), "a function reachable from the check workers writes into the parsed rule / PromQL AST "+why+": that state is shared by every check of the rule (and of its group), so later or concurrent checks see the modification and results depend on scheduling")
+			}
+			return true
+		})
+	}
+	c.Check(nShared == 0, "C11-R3", "no stores into the shared rule/AST from worker-reachable code", token.NoPos, "0 stores", itoa(nShared)+" stores")
 	sort.Strings(names)
 	c.Check(len(reach) >= 100, "C11-R3", "worker-reachable functions enumerated", token.NoPos, itoa(len(reach))+" functions reachable from scanWorker and the Check methods", "call-graph closure from the workers is implausibly small ("+itoa(len(reach))+")")
 	c.Check(nStores == 0, "C11-R3", "no package-level stores in worker-reachable code", token.NoPos, "0 stores", itoa(nStores)+" stores")
